@@ -69,7 +69,7 @@ CLAIMS = {
             "4/C19", TRUST + " Only schema-known attributes are written (JSON cannot tell unknown attributes from blocks), and where a reference and a string literal are both admitted the literals are strings that are no traversal (JSON cannot tell them from a legacy reference); ranges and block-local targets are ignored as the statement says. One known finding (escaped string index under a Reference constraint) is listed in known_findings.json."),
     "C08": ("property-based testing (rapid): validity predicate per value-completion candidate against the collected declarations and the attribute's constraint; round trip through go-to-definition",
             "Terraform-like worlds with resolving references and half-typed values; every candidate inside an attribute value is judged: reference candidates are addresses of collected declarations, insert text that reads back as a traversal denoting the label, start with the typed text, are visible (block-local names, self.*), are not the edited attribute and fit the expected scope/type where known; function candidates are known functions with convertible return type; accepted reference candidates resolve back through go-to-definition.",
-            "4/C08", TRUST + " Soundness of candidates only ('offers only what fits'); the expected scope/type is judged where the value is a plain traversal or empty, and inside the parentheses of a call of a known function (the parameter of the comma-counted argument slot decides), and inside object constructors (the attribute of the item under the cursor decides; an item whose key is no literal name admits no reference / function / boolean candidate)."),
+            "4/C08", TRUST + " Soundness of candidates only ('offers only what fits'); the expected scope/type is judged where the value is a plain traversal or empty, inside an interpolation of a template under an any-expression (a string is expected), and inside the parentheses of a call of a known function (the parameter of the comma-counted argument slot decides), and inside object constructors (the attribute of the item under the cursor decides; an item whose key is no literal name admits no reference / function / boolean candidate)."),
 }
 
 def main():
